@@ -331,6 +331,50 @@ func runC10(r *Run) {
 	}
 
 	// ---------- R6 ----------
+	r.Rule("R9", "PATH.approval-monitor-scans-every-log: monitorApprovalEvent compares the first topic of every log of the call with the Approval signature hash — from the start of the loop body the next log (or the nil return) is reachable only over the not-equal edge of that comparison, except over an edge on which the log has no topics at all; no filter on the number of topics or on the emitting address decides which logs are looked at (a token is free to declare Approval without indexed arguments)")
+	if ma, ok := P.FnOK("(x/erc20/keeper.Keeper).monitorApprovalEvent"); ok {
+		isTopic0 := func(v ssa.Value) bool {
+			return backSlice(v).HasField("Log", "Topics")
+		}
+		_, ne := condEdges(ma, func(x, y ssa.Value) bool {
+			return isTopic0(x) && backSlice(y).HasCall(func(g CallInfo) bool { return g.Name == "Keccak256Hash" }) ||
+				isTopic0(y) && backSlice(x).HasCall(func(g CallInfo) bool { return g.Name == "Keccak256Hash" })
+		})
+		noTopics, _ := condEdges(ma, func(x, y ssa.Value) bool {
+			c, ok := stripValue(x).(*ssa.Call)
+			if !ok {
+				return false
+			}
+			b, ok := c.Call.Value.(*ssa.Builtin)
+			n, okc := constInt(y)
+			return ok && b.Name() == "len" && okc && n == 0 && isTopic0(c.Call.Args[0])
+		})
+		okScan := len(ne) > 0
+		var wit []string
+		nLoops := 0
+		for _, hd := range ma.Blocks {
+			if !isLoopHeader(hd) {
+				continue
+			}
+			nLoops++
+			body := loopBody(hd)
+			for _, sc := range hd.Succs {
+				if !body[sc] || sc == hd {
+					continue
+				}
+				w := PathQuery{Fn: ma, StartBlock: sc, Target: func(in ssa.Instruction) bool {
+					return in.Block() == hd && in == hd.Instrs[0]
+				}, DelEdge: edgeSet(append(append([]Edge{}, ne...), noTopics...))}.Search()
+				if w != nil {
+					okScan = false
+					wit = P.witness(w)
+				}
+			}
+		}
+		r.Check(okScan && nLoops == 1, "R9", fnID(ma)+"#scans-every-log", P.Pos(fnPos(ma)), "every log's first topic is compared with the Approval signature", "monitorApprovalEvent can move on to the next log without having compared this log's first topic with the Approval signature (a filter on the number of topics or similar): an Approval event in a shape the filter skips goes unnoticed and the conversion succeeds", wit...)
+	} else {
+		r.Bad("R9", "anchor/monitorApprovalEvent", "", "not found")
+	}
 	r.Rule("R6", "PATH+FLOW.hook-guards: in PostTxProcessing the payout (MintCoins / CallEVM burn / SendCoinsFromModuleToAccount) is reachable only over the passing edges of: hook enabled (EnableErc20, EnableEVMHook), event name == Transfer, positive amount, registered pair found, recipient topic == ModuleAddress, pair.Enabled; the coin amount derives from the event data, the denom from the pair, the payee from topic 1, the burned contract is the log's address")
 	if fn, ok := P.FnOK("(" + erc20K + ".Keeper).PostTxProcessing"); ok {
 		isPayout := isCallMatching(func(ci CallInfo) bool {
